@@ -60,6 +60,18 @@ def build_cases(ctx, T, rounds):
                     words += p.words()
                 words += inst.words()
                 cases.append(("parse", "parse " + instgen.to_bytes(words).hex(), inst.text()))
+    # OpSpecConstantOp embedding every context-free opcode, with 0 / 1 / 2 / 4 entries of a nested variadic operand
+    lit_spec = g.vix["LiteralSpecConstantOpInteger"]
+    for r in g.nestable():
+        variadic = any(q == "ZeroOrMore" for _, q in r["ops"])
+        for many in ((0, 1, 2, 4) if variadic else (None,)):
+            g.next_id = 10
+            ops = g.spec_op(force=r, many=many)
+            inst = instgen.Inst(g.opv["SpecConstantOp"], "SpecConstantOp", 3, 4, ops)
+            if len(inst.words()) >= 65536:
+                continue
+            cases.append(("asm", "asm " + inst.text(), ",".join(str(w) for w in inst.words())))
+            cases.append(("parse", "parse " + instgen.to_bytes(list(hdr) + inst.words()).hex(), inst.text()))
     return cases
 
 
